@@ -208,6 +208,14 @@ func growthForms(big string) []string {
 		"x = [] * " + big + "; len(x)",
 		"a = [1] * 100000; m = {}; for i = 2000 { m[i] = a }; m",
 		"a = 0 : 60000; m = {}; for i = 1500 { m[i] = a }; println(m)",
+		"a = 1; for 30 { a = {\"k\": a, \"a\": a, \"b\": a} }; a",
+		"a = 1; for 40 { a = [a, a, a] }; println(a)",
+		"a = 1; for 30 { a = {\"k\": [a, a], \"a\": a} }; len(str(a))",
+		"a = 1; for 30 { a = {\"k\": [a, a], \"a\": a} }; func f(x) { 1 }; f(a)",
+		"a = 1; for 40 { a = [a, a, a] }; a == a",
+		"a = 1; for 40 { a = [a, a, a] }; b = a; a < b",
+		"func mk() { b = 1; for 40 { b = [b, b] }; b }; x = mk(); y = mk(); len(x) + len(y)",
+		"a = 1; for 40 { a = [a, a, a] }; m = {}; m[a] = 1; m[a]",
 		"a = 0 : 60000; m = {}; for i = 300 { m[i] = a }; len(str(m))",
 		"a = 0 : 60000; m = []; for i = 300 { m = m + [a] }; len(sprintf(\"%v\", m))",
 		"a = [1] * 100000; m = []; for i = 500 { m = m + [a] }; len(json(m))",
